@@ -187,10 +187,10 @@ theorem nocall_tendsto (c : List ℚ) (N : ℕ) (af : ℕ) (haf : af ≤ 2 * N) 
     funext (nocallPart_eq c af g)
   rw [this]; fun_prop
 
-/-- the Hardy–Weinberg mixture of individual-subsampling rows: what the F > 0 branch of `projection_matrix` computes,
-    evaluated with the F = 0 partition probabilities -/
-def projMix0 (nseq nsub af j : ℕ) : ℚ :=
-  lsum ((pw af (nseq / 2) 0).map fun gp => Gen.LowPass.projAccum (projInb gp.1 nsub j) gp.2)
+/-- the row the driver evaluates is the list of the entries of `projMix0` -/
+theorem projMixRow0_eq (nseq nsub af : ℕ) :
+    projMixRow0 nseq nsub af = (List.range (nsub + 1)).map (projMix0 nseq nsub af) := by
+  simp [projMixRow0, projMix0, List.map_map, Function.comp_def, projInb]
 
 /-- the F > 0 branch of `projection_matrix` has a limit at F = 0⁺: the Hardy–Weinberg mixture of the
     individual-subsampling rows -/
